@@ -21,7 +21,7 @@ PROPERTY = "C09"
 
 
 def classify(dom):
-    return "progressbar-no-newline" if dom == "f23" else "table-ratio-zero-column" if dom == "rz" else None
+    return "progressbar-no-newline" if dom == "f23" else None
 
 
 def _measure_job(args):
@@ -242,6 +242,6 @@ MANIFEST = {
     "measurement is unsound.  `text_at_max_not_wrapped` assumes `\\n` is the only line-break character of the text (str.splitlines, used by "
     "the measurement, also breaks at FS/GS/RS/NEL/LS/PS; wrap does not).  Table.__rich_measure__ is modelled here (`tableRichMeasure` of Model/Layout.lean; C07's Model/Table.lean has gained its own "
     "`Table.richMeasure` since, compared per table by ./check C07).  Quirk modelled: an object whose __rich__ returns a str is "
-    "measured (0, available), because Measurement.get converts a str before it follows __rich__.  New finding shared with C01: table-ratio-zero-column (see C01 note).  Outside the model: styles, panel/rule titles wider than console.width.  Trusted base as C01.",
+    "measured (0, available), because Measurement.get converts a str before it follows __rich__.  Outside the model: styles, panel/rule titles wider than console.width.  Trusted base as C01.",
     "design_ref": "DESIGN.md section 7, C01/C07/C08/C09",
 }
